@@ -374,6 +374,10 @@ type fNested struct {
 type fFloat struct {
 	F float64 `yaml:"f"`
 }
+type fShared struct {
+	Name  string `yaml:"name"`
+	Label string `yaml:"label" aliases:"name"`
+}
 
 func TestC16(t *testing.T) {
 	r := newReport(t, "C16")
@@ -403,6 +407,11 @@ func TestC16(t *testing.T) {
 	check("a: 1\nx: 2\n", func() any { return &fPtrOuter{} })     // embedded inline pointer to struct
 	check("o: 1\nm: 2\ni: 3\n", func() any { return &fNested{} }) // inline struct inside an inline struct
 	check("f: 1\n", func() any { return &fFloat{} })              // an integer literal for a float field
+	var sh fShared
+	r.cases++
+	if err := decode("name: n\n", &sh); err != nil || sh.Name != "n" || sh.Label != "" {
+		r.shows("key-claimed-twice", fmt.Sprintf("struct{Name `yaml:\"name\"`; Label `yaml:\"label\" aliases:\"name\"`} from \"name: n\": %+v (err %v) - the key name fills both fields", sh, err))
+	}
 	r.done("c16-findings")
 }
 
